@@ -1,3 +1,50 @@
 """Matchers for entries of /verif/known_findings.json with status "known".  Each matcher is
 precise to ONE recorded defect (specific input class / call site), so that any other
 violation of the same property is still reported."""
+
+
+def _items(case):
+    return case.get("args", {}).get("items", []) if isinstance(case.get("args"), dict) else []
+
+
+def _has_option(L):
+    if not isinstance(L, dict):
+        return False
+    if L.get("c") in ("IndexedOption", "ByteMasked", "BitMasked", "Unmasked"):
+        return True
+    if "x" in L and _has_option(L["x"]):
+        return True
+    return any(_has_option(x) for x in L.get("xs", []))
+
+
+def slice_zero_length_array(case, why):
+    """F03: a zero-length integer array index inside a tuple of two or more items."""
+    its = _items(case)
+    return case.get("act") == "slice" and len(its) >= 2 and any(it["k"] == "arr" and len(it["is"]) == 0 for it in its)
+
+
+def slice_option_advanced_pairing(case, why):
+    """F04: two or more advanced indexes (arrays / integers next to arrays / arrays with None) where rows are
+    missing (option node in the layout or None in an index array): the later arrays are not re-aligned."""
+    its = _items(case)
+    if case.get("act") != "slice":
+        return False
+    adv = [it for it in its if it["k"] in ("arr", "at", "missing")]
+    arrlike = [it for it in its if it["k"] in ("arr", "missing")]
+    if len(adv) < 2 or not arrlike:
+        return False
+    none_in_index = any(it["k"] == "missing" and 99999 in it["is"] for it in its)
+    if not (_has_option(case.get("from")) or none_in_index):
+        return False
+    return why.startswith("value differs") or "index out of range" in why or why.startswith("tojson raised") \
+        or why.startswith("result fails validity")
+
+
+def slice_jagged_none_on_option(case, why):
+    """F05: a jagged index with None entries applied to an option-type array yields an invalid layout."""
+    its = _items(case)
+    if case.get("act") != "slice" or not _has_option(case.get("from")):
+        return False
+    if not any(it["k"] == "jagged" and any(99999 in sub for sub in it["js"]) for it in its):
+        return False
+    return why.startswith("tojson raised") or why.startswith("result fails validity") or why.startswith("value differs")
